@@ -1949,6 +1949,21 @@ void expression_t::collect_possible_writes(set<symbol_t>& symbols) const
     }
 }
 
+/** What the bounds of the ranges in a type read: the type of the variable that a quantifier binds holds the range it
+ * runs over, which is no operand of the quantifier. */
+static void collect_type_reads(const type_t& type, set<symbol_t>& symbols, bool collectRandom)
+{
+    if (type.get_kind() == RANGE) {
+        const auto [lower, upper] = type.get_range();
+        lower.collect_possible_reads(symbols, collectRandom);
+        upper.collect_possible_reads(symbols, collectRandom);
+        collect_type_reads(type[0], symbols, collectRandom);
+    } else {
+        for (size_t i = 0; i < type.size(); ++i)
+            collect_type_reads(type[i], symbols, collectRandom);
+    }
+}
+
 void expression_t::collect_possible_reads(set<symbol_t>& symbols, bool collectRandom) const
 {
     if (empty())
@@ -1959,6 +1974,14 @@ void expression_t::collect_possible_reads(set<symbol_t>& symbols, bool collectRa
 
     switch (get_kind()) {
     case IDENTIFIER: symbols.insert(get_symbol()); break;
+
+    case FORALL:
+    case EXISTS:
+    case SUM:
+        // the value also depends on the range that the bound variable runs over
+        if (const auto binder = get(0).get_symbol(); binder != symbol_t())
+            collect_type_reads(binder.get_type(), symbols, collectRandom);
+        break;
 
     case FUN_CALL: {
         // Add all symbols which are used by the function
